@@ -365,9 +365,20 @@ int tr_send_sim(const void *sock, const void *pdu, const size_t len, const time_
 	unsigned k = ++p.send_calls;
 	if (!p.open)
 		return TR_ERROR;
+	if (p.dead_gen == p.gen) {
+		// a write has failed for good on this connection ("sticky" send fault: broken pipe): every later write fails as
+		// well until the client closes and reconnects; reads just time out
+		W.ctx.count("fault_send_dead_again");
+		p.wait_returned_success = false;
+		return TR_ERROR;
+	}
 	if (const J *f = fault_for(p, "send", k)) {
 		std::string kind = f->gets("kind", "err");
 		fault_fired(W, p, "send_" + kind);
+		if (kind == "err" && f->geti("sticky", 0)) {
+			p.dead_gen = p.gen;
+			W.ctx.count("fault_send_sticky");
+		}
 		// tr_send_all gives up on this PDU: what it has written so far stays on the wire as a fragment (the only
 		// incomplete PDU C14 permits) and is not part of the next PDU
 		if (p.out_stream.size() > p.out_parsed) {
@@ -625,6 +636,21 @@ void eval_pending(World &W, const GPending &pd)
 			for (int si : g.socks)
 				if (!W.peers[(size_t)si].stopping && W.socks[(size_t)si].thread_id != 0)
 					all_stopping = false;
+			// the leniency for "being shut down right now" needs someone who is doing it: a join in progress, the operator,
+			// or another thread inside its own closing action for a more preferred group (between its last rtr_stop and
+			// its CLOSED report). A group whose threads are all gone and that nobody is working on must be CLOSED.
+			bool in_progress = false;
+			for (int si : g.socks)
+				if (W.socks[(size_t)si].thread_id != 0 && W.peers[(size_t)si].stopping)
+					in_progress = true;
+			bool other_actor = W.oper_busy;
+			for (auto &af : W.acting_for)
+				if (af.first != sim_self() && af.second < g.pref)
+					other_actor = true;
+			if (all_stopping && !(in_progress || other_actor))
+				all_stopping = false;
+			else if (all_stopping)
+				W.ctx.count("probe_close_in_progress_elsewhere");
 			if (((lib_status(g.pref) != RTR_MGR_CLOSED || g.status != RTR_MGR_CLOSED) && !all_stopping) || running)
 				W.ctx.viol("C15", "less-preferred-not-closed", "C15:failover:less-preferred-still-open",
 					   "group %d became ESTABLISHED but less preferred group %d is not shut down (manager status %d, reported %d, thread running %d, %zu records)",
